@@ -100,6 +100,24 @@ Theorem unloadable_parent_is_error : forall Q lim E f cur p rest st c,
   icall Q lim E (S f) (TTemplate cur (IExtends (NLit p) :: rest)) st = Err c.
 Proof. exact unloadable_parent_proof. Qed.
 
+(* Depth accounting is balanced.  Whatever a stream does - blocks (+5 while they run), super(),
+   includes (+10 while the included template runs), macros, imports - when it returns normally the
+   depth charged against the recursion limit is what it was before.  In particular an include gives
+   back exactly what it charged on every path that continues the render: a candidate was found
+   and rendered, no candidate exists and `ignore missing` is given, the list is empty (an error
+   aborts the render).  Missed lookups therefore leave no trace: what fits under the recursion limit
+   after n missed includes is what fits before them. *)
+Theorem depth_balanced : forall Q lim E f t s s',
+  icall Q lim E f t s = Ok s' -> outer s' = outer s.
+Proof. exact depth_balanced_proof. Qed.
+
+Theorem include_depth_balanced : forall Q lim E f cur es ign s s',
+  perform_include Q lim E (icall Q lim E f) cur es ign s = Ok s' -> outer s' = outer s.
+Proof.
+  intros Q lim E f cur es ign s s' H.
+  exact (perform_include_outer Q lim E _ (depth_balanced_proof Q lim E f) cur es ign s s' H).
+Qed.
+
 (* {% import lib as m %}: for a library of top-level text, set and macro statements, iterating m
    yields exactly the names the library defines at its top level (exports_of reads them off the
    library's text; exports_keys: a name is exported iff some top-level set / macro defines it). *)
@@ -206,5 +224,7 @@ Print Assumptions double_extends_is_error.
 Print Assumptions missing_parent_is_error.
 Print Assumptions unloadable_is_not_missing.
 Print Assumptions unloadable_parent_is_error.
+Print Assumptions depth_balanced.
+Print Assumptions include_depth_balanced.
 Print Assumptions import_exports_exact.
 Print Assumptions exports_keys.
